@@ -1,0 +1,112 @@
+//go:build verif
+
+package limit
+
+import (
+	"io"
+
+	"golang.org/x/time/rate"
+
+	"github.com/fatedier/frp/verif"
+)
+
+// C01 "limiter write loop splits into burst-sized chunks without dropping the
+// remainder and waits for tokens before each chunk" / "the bytes a proxy
+// delivers never exceed limit x interval plus one burst": every byte handed on
+// by the limit Reader / Writer has been paid for with one token of the shared
+// limiter, in requests no larger than the burst, and the Writer hands on the
+// caller's bytes completely, in order and unaltered.
+
+// Library contracts (trusted, listed in the evidence): io.Writer.Write reports
+// how many of the bytes it was given it consumed, and all of them when it
+// reports no error (the documented io.Writer contract); io.Reader.Read reports
+// at most the buffer length; frp builds its limiters with a positive burst
+// (checked at the construction sites: NewProxy on either side passes
+// burst = configured bytes > 0).
+//
+//verif:contract (io.Writer).Write
+//verif:trusted
+func verif_io_Writer_Write(w io.Writer, p []byte) {
+	n, err := w.Write(p)
+	verif.Ensures(0 <= n && n <= len(p) && (err != nil || n == len(p)), "io_writer_contract")
+}
+
+//verif:contract (io.Reader).Read
+//verif:trusted
+func verif_io_Reader_Read(r io.Reader, p []byte) {
+	n, _ := r.Read(p)
+	verif.Ensures(0 <= n && n <= len(p), "io_reader_contract")
+}
+
+//verif:contract (*golang.org/x/time/rate.Limiter).Burst
+//verif:trusted
+func verif_Limiter_Burst(l *rate.Limiter) {
+	b := l.Burst()
+	verif.Ensures(b > 0, "frp_limiters_have_positive_burst")
+}
+
+const (
+	evWait   = "Limiter).WaitN"
+	evWWrite = "io.Writer).Write"
+	evRRead  = "io.Reader).Read"
+)
+
+// Writer.Write: on success every byte of p has been handed to the underlying
+// writer (n == len(p)); in any case n counts the bytes handed on.
+//
+//verif:contract (*~/pkg/util/limit.Writer).Write
+//verif:props C01
+func verif_Writer_Write(w *Writer, p []byte) {
+	verif.ResetEvents()
+	n, err := w.Write(p)
+	verif.Ensures(0 <= n && n <= len(p), "count_within_the_callers_bytes")
+	if err == nil {
+		verif.Ensures(n == len(p), "nothing_dropped_on_success")
+	}
+}
+
+// Loop invariant: the bytes still to be written are exactly the tail of the
+// caller's slice after the n bytes already handed on.
+//
+//verif:loop (*~/pkg/util/limit.Writer).Write 1 inv=verifWriteInv args=p@entry,p,n,b
+func verifWriteInv(p0, p []byte, n int, b int, i int) bool {
+	return b > 0 && n >= 0 && n+len(p) == len(p0) && (i < 0 || i >= len(p) || p[i] == p0[n+i])
+}
+
+//verif:pure
+func verifHeadRest(p0, p []byte, n int, b int) []byte { return p }
+
+// One completed iteration: tokens for exactly the chunk were obtained before
+// the chunk was written; the chunk is the first min(burst, remaining) bytes of
+// what remained, unaltered.
+//
+//verif:loopbody (*~/pkg/util/limit.Writer).Write 1 check=verifWriteStep args=p@entry,p,n,b head=verifHeadRest
+func verifWriteStep(p0, p []byte, n int, b int, rest []byte, i int) bool {
+	if !verif.CalledInIter(evWWrite) || !verif.CalledInIter(evWait) {
+		return false
+	}
+	chunk := verif.IterArg[[]byte](evWWrite, 1)
+	want := len(rest)
+	if b < want {
+		want = b
+	}
+	return len(chunk) == want && want > 0 && verif.IterArg[int](evWait, 2) == want &&
+		verif.IterRet[error](evWait, 0) == nil && verif.CalledBefore(evWait, evWWrite) &&
+		(i < 0 || i >= want || chunk[i] == rest[i])
+}
+
+// Reader.Read: the inner read gets a buffer of at most one burst, and tokens
+// for exactly the bytes read are obtained before they are reported.
+//
+//verif:contract (*~/pkg/util/limit.Reader).Read
+//verif:props C01
+func verif_Reader_Read(r *Reader, p []byte) {
+	verif.ResetEvents()
+	n, err := r.Read(p)
+	verif.Ensures(0 <= n && n <= len(p), "count_within_the_callers_buffer")
+	verif.Ensures(verif.Called(evRRead) && len(verif.NthArg[[]byte](evRRead, 0, 1)) <= len(p), "inner_read_within_the_callers_buffer")
+	if err == nil {
+		verif.Ensures(verif.CalledWith(evWait, 2, n) && verif.RetErr(evWait, 0) == nil, "tokens_for_exactly_the_bytes_read")
+		verif.Ensures(n <= verif.RetInt("Limiter).Burst", 0), "at_most_one_burst_per_read")
+	}
+}
